@@ -107,7 +107,7 @@ def worker(args):
 
 def run(ctx):
     server_bin("rel")
-    nprog = 60 if ctx.quick else 2000
+    nprog = 180 if ctx.quick else 2000
     for p in pmap(worker, [("%s/%d" % (ctx.seed, i), nprog) for i in range(NCPU)]): ctx.merge(p)
     ctx.rule = ("syntactically valid generated programs, each in three layouts (random/spaced, compact, one token per line; LF and CRLF) under one random option set (spaces with tabSize 0..8, or tabs): "
                 "all three format to the same text; formatting that text again answers null; every line is indented with unit^depth; distinct_nontrivial = distinct canonical texts and (depth, unit) pairs")
